@@ -207,9 +207,6 @@ where
         let m: Result<ManyMatcher<PT, DataKey<D>, P, D::IndexingScheme>, _> =
             ManyMatcher::try_from_patterns_with_det_heuristic(patterns.clone(), fallback, h);
         let evs = take_log();
-        if std::env::var("PM_TRACE").is_ok() {
-            eprintln!("TRACE built events={}", evs.len());
-        }
         let mut out = Line::default();
         let m = match m {
             Ok(m) => m,
@@ -266,13 +263,8 @@ where
             naive: vec![],
         };
         for h in hosts {
-            if std::env::var("PM_TRACE").is_ok() {
-                eprintln!("TRACE host");
-            }
             let ms: Vec<_> = m.find_matches(h).collect();
-            if std::env::var("PM_TRACE").is_ok() {
-                eprintln!("TRACE many done {}", ms.len());
-            }
+
             out.list(&ms, |l, pm| {
                 l.tok(pm.pattern.0);
                 enc_map(l, &pm.match_data);
